@@ -6,12 +6,11 @@
    Reading guide.  [Inv g w] (AlgoInv.v) is the coupling invariant of fragment F1 between the sync state, both
    providers and the not-yet-taken-in events of world [w]; the ghost [g] records which objects users made and the
    contents written to each.  [SCtx g w e en] = Inv + "entry e (>= 2, value en) has just been refreshed from both
-   providers" — the situation inside SyncManager.sync after pre_sync.  What is here is COMPLETE; the assembly of the
-   per-call theorems into one statement about [sync_step] (and from there algo_inv_reachable over whole runs) is
-   not finished and therefore absent — see notes/ALGO_design.md for the exact state. *)
+   providers" — the situation inside SyncManager.sync after pre_sync.  What is here is COMPLETE; statements still open are
+   absent (not admitted) — see notes/ALGO_design.md for the exact state. *)
 From Coq Require Import NArith List Bool.
 From CS Require Import Sx Str PathModel StateModel StateProofs ProvModel AlgoModel AlgoCheck AlgoProofs AlgoState AlgoProv AlgoInv AlgoInit AlgoQuiet AlgoIntake
-     AlgoSync AlgoLatest AlgoFinish AlgoSyncEntry.
+     AlgoSync AlgoLatest AlgoFinish AlgoSyncEntry AlgoStep.
 Import ListNotations.
 Local Open Scope N_scope.
 
@@ -140,6 +139,20 @@ Theorem ALGO_inv_delete_synced : forall g w e en s k w3 calls rs,
     (forall x sd0, getx w3 x sd0 = getx w x sd0).
 Proof. exact delete_pres. Qed.
 Print Assumptions ALGO_inv_delete_synced.
+
+(* ---- the invariant: one whole engine step --------------------------------------------------------------------- *)
+(* SyncManager.do = SyncState.change (path-filling loop, tick, pick) + pre_sync + sync + storage_commit, for EVERY
+   iteration order of the change set and every world satisfying the invariant; no temp file outlives the step *)
+Theorem ALGO_inv_sync_step : forall g w order w' cs,
+  Inv g w -> NoTmp w -> sync_step w order = ROk (w', cs) -> Inv g w' /\ NoTmp w'.
+Proof. exact sync_step_pres. Qed.
+Print Assumptions ALGO_inv_sync_step.
+
+(* every engine action (event intake of a side, or a sync step), at every clock reading *)
+Theorem ALGO_inv_engine_step : forall g w a w' cs,
+  Inv g w -> NoTmp w -> (forall sd o, a <> AUser sd o) -> algo_step w a = ROk (w', cs) -> Inv g w' /\ NoTmp w'.
+Proof. exact engine_step_pres. Qed.
+Print Assumptions ALGO_inv_engine_step.
 
 (* ---- quiescent => both sides equal, from the invariant ------------------------------------------------------ *)
 (* no pending event on either side and an empty change set: the two root-relative trees are equal as sets *)
